@@ -9,8 +9,9 @@
    The prompt (last line printed before the read) tells which metric the question is about.
    CheckPattern = TRUE additionally demands of every returned string the official vectorString
    pattern of its version (C08).                                                            *)
-EXTENDS Interactive, Json, IOUtils, TLC, TraceData
-CONSTANT CheckPattern
+EXTENDS InteractiveText, Json, IOUtils, TLC, TraceData
+CONSTANTS CheckPattern,
+          CheckText        \* TRUE: also demand the exact text shown before every read and the asking order (beyond the property)
 Traces == TraceData
 VARIABLES tid, l
 tvars == <<tid, l, bver, all, asked, accepted, cur, st, result>>
@@ -24,15 +25,21 @@ TInit == /\ tid \in 1..Len(Traces) /\ l = 1
 Consume == l' = l + 1 /\ UNCHANGED tid
 \* a question is opened exactly when a read happens in state "choose": compose Ask with the read
 OpenIfNeeded(m) == IF st = "choose" THEN m \in AskSet(bver, all) \ asked ELSE (st = "asking" /\ m = cur)
+\* exact text (only with CheckText): what was written since the previous read, and the library's asking order
+TextOk(m) == ~CheckText \/
+   /\ Ev.shown = (IF st = "asking" THEN ShownRepeat(bver, m)
+                  ELSE IF asked = {} THEN ShownFirst(bver, m, Tr.colours) ELSE ShownNext(bver, m, Tr.colours))
+   /\ (st = "choose" => LET o == AskOrderOf(bver) IN
+                          m = o[CHOOSE k \in 1..Len(o) : o[k] \in AskSet(bver, all) \ asked /\ \A j \in 1..(k-1) : o[j] \notin AskSet(bver, all) \ asked])
 TRead == /\ HasEv /\ Ev.ev = "Read" /\ st \in {"choose","asking"}
-         /\ \E m \in AskSet(bver, all) : /\ Names(m, Ev.prompt) /\ OpenIfNeeded(m)
+         /\ \E m \in AskSet(bver, all) : /\ Names(m, Ev.prompt) /\ OpenIfNeeded(m) /\ TextOk(m)
                /\ \E v \in Outcomes(bver, m, Ev.answer) :
                      IF v # "" THEN /\ accepted' = Append(accepted, m \o ":" \o v) /\ asked' = asked \cup {m}
                                     /\ st' = "choose" /\ cur' = ""
                      ELSE /\ st' = "asking" /\ cur' = m /\ UNCHANGED <<accepted, asked>>
          /\ Consume /\ UNCHANGED <<bver, all, result>>
 TEof == /\ HasEv /\ Ev.ev = "Eof" /\ st \in {"choose","asking"}
-        /\ \E m \in AskSet(bver, all) : Names(m, Ev.prompt) /\ OpenIfNeeded(m) /\ cur' = m
+        /\ \E m \in AskSet(bver, all) : Names(m, Ev.prompt) /\ OpenIfNeeded(m) /\ TextOk(m) /\ cur' = m
         /\ st' = "eof" /\ Consume /\ UNCHANGED <<bver, all, asked, accepted, result>>
 TEofError == /\ HasEv /\ Ev.ev = "EofError" /\ st = "eof" /\ st' = "done" /\ Consume
              /\ UNCHANGED <<bver, all, asked, accepted, cur, result>>
